@@ -103,17 +103,36 @@ def replay(path):
 
 
 def configs(tier):
+    import itertools
     import panqec.codes as pc
     out = []
-    for c in common.code_configs(tier, deformed=(tier == 'quick')):
+    if tier == 'quick':
+        for c in common.code_configs(tier, deformed=True):
+            cls, size, name, axis = common.parse_cfg(c)
+            if getattr(pc, cls)(*size).n <= 100:
+                out.append(c)
+        return out
+    # thorough: every deformation on the thorough size list, plus larger undeformed lattices (2-D sides up to
+    # 9, 3-D sides up to 5); the solver decides d <= 9 within the time-out (d >= 10 was tried: unknown)
+    seen = set()
+    for c in common.code_configs('thorough', deformed=True):
         cls, size, name, axis = common.parse_cfg(c)
         code = getattr(pc, cls)(*size)
-        n = code.n
-        if tier == 'quick' and n > 100:
-            continue
-        if tier == 'thorough' and (n > 250 or int(code.d) > 8):
-            continue
-        out.append(c)
+        if code.n <= 300 and int(code.d) <= 8:
+            out.append(c)
+            seen.add((cls, size))
+    for cls in common.CLASSES:
+        dim = getattr(pc, cls).dimension
+        for size in itertools.product(range(2, (9 if dim == 2 else 5) + 1), repeat=dim):
+            if (cls, size) in seen or not common.in_family(cls, size):
+                continue
+            if cls in common.RECTANGULAR_DEFECT and size[0] != size[1]:
+                continue
+            if cls == 'Color666ToricCode' and size[0] > 2:
+                continue
+            code = getattr(pc, cls)(*size)
+            if code.n <= 700 and int(code.d) <= 9:
+                out.append(common.cfg_name(cls, size))
     return out
 
 
@@ -131,9 +150,10 @@ def main(argv=None):
         assumptions=['uint8 cells modelled as mathematical integers',
                      'csr_matrix replaced by csr_shim in panqec.bsparse/bpauli'],
         bounds=dict(symbolic='all 2n bits of the Pauli operator', configurations=len(cfgs),
-                    quick='n <= 100', thorough='n <= 250 and d <= 8'),
+                    quick='n <= 100, all deformations', thorough='all deformations for n <= 300 and d <= 8; undeformed lattices '
+                    'with 2-D sides <= 9 / 3-D sides <= 5, n <= 700 and d <= 9'),
         stubs=['scipy.sparse.csr_matrix -> symx.csr_shim'],
-        outside=['codes with n > 250 or d > 8', 'sizes beyond the configuration list'])
+        outside=['codes with d >= 10 (tried: solver unknown after 120-240 s) or n > 700', 'sizes beyond the configuration list'])
 
 
 if __name__ == '__main__':
